@@ -17,6 +17,10 @@ type KnownFinding struct {
 	What       string `json:"what"`
 	Witness    string `json:"witness,omitempty"`
 	Commit     string `json:"commit,omitempty"`
+	// Mask: contract expression over the function's inputs describing exactly the failing class.
+	// The check then proves "post OR mask", so any other violation of the same conjunct is reported.
+	// Without a mask the whole conjunct is excluded.
+	Mask string `json:"mask,omitempty"`
 }
 
 type propResult struct {
@@ -59,6 +63,18 @@ func runProperty(cfg *PropConfig, tier string, seed int) *propResult {
 		return res
 	}
 	E.coverReturns = tier == "thorough"
+	E.masks = map[string]Expr{}
+	for _, k := range loadKnown() {
+		if k.Status == "open" && k.Property == cfg.ID && k.Mask != "" {
+			m, err := ParseExpr(k.Mask)
+			if err != nil {
+				res.fatal = "known_findings.json: bad mask for " + k.Obligation + ": " + err.Error()
+				res.exit = 1
+				return res
+			}
+			E.masks[k.Obligation] = m
+		}
+	}
 	var all []*Obl
 	for _, fs := range cfg.Functions {
 		fn := E.funcs[fs.Key]
@@ -125,7 +141,7 @@ func runProperty(cfg *PropConfig, tier string, seed int) *propResult {
 	}
 	for _, o := range all {
 		if o.Status == "" {
-			o.Short = knownOpen[stripOrdinal(o.Name)]
+			o.Short = (knownOpen[stripOrdinal(o.Name)] && !o.Masked) || o.Probe
 			todo = append(todo, o)
 		}
 	}
@@ -150,8 +166,15 @@ func runProperty(cfg *PropConfig, tier string, seed int) *propResult {
 			continue
 		}
 		masked := false
+		lookup := stripOrdinal(o.Name)
+		if o.Probe {
+			lookup = strings.Replace(lookup, "#probe:", "#post:", 1)
+		}
 		for _, k := range known {
-			if k.Status == "open" && k.Property == cfg.ID && k.Obligation == stripOrdinal(o.Name) {
+			if o.Masked {
+				break // "post OR mask" itself failed: a violation outside the recorded class
+			}
+			if k.Status == "open" && k.Property == cfg.ID && k.Obligation == lookup {
 				masked = true
 				line := k.Line
 				if line == "" {
